@@ -3,6 +3,8 @@
 // Package ifc: interface zoo for spec/Iface.tla (C07).
 package ifc
 
+import "unsafe"
+
 // I: three methods, the middle one (in sorted itab order: A, C, b) unexported.
 type I interface {
 	A(int) int
@@ -35,7 +37,56 @@ var (
 	K1 K = Real
 )
 
-func Restore() { I1, I2, J1, K1 = nil, Real, nil, Real }
+func Restore() {
+	I1, I2, J1, K1 = nil, Real, nil, Real
+	L1.Restore()
+	L2.Restore()
+}
+
+// Local: a variable of a function-local interface type, reachable only through closures made where the type is in
+// scope. L1 and L2 are variables of two DIFFERENT types that share package path and name ("ifc.svc"); method "Beta"
+// sits at slot 1 of the first (Alpha, Beta) and at slot 0 of the second (Beta, Gamma).
+type Local struct {
+	Ptr     interface{}                // *svc
+	Addr    func() [2]uintptr          // the two words of the variable
+	Call    func(m string, a int) int  // v.<m>(a)
+	Restore func()
+}
+
+var L1, L2 Local
+
+func init() {
+	{
+		type svc interface {
+			Alpha(int) int
+			Beta(int) int
+		}
+		var v svc
+		L1 = Local{Ptr: &v, Restore: func() { v = nil },
+			Addr: func() [2]uintptr { return *(*[2]uintptr)(unsafe.Pointer(&v)) },
+			Call: func(m string, a int) int {
+				if m == "Alpha" {
+					return v.Alpha(a)
+				}
+				return v.Beta(a)
+			}}
+	}
+	{
+		type svc interface {
+			Beta(int) int
+			Gamma(int) int
+		}
+		var v svc
+		L2 = Local{Ptr: &v, Restore: func() { v = nil },
+			Addr: func() [2]uintptr { return *(*[2]uintptr)(unsafe.Pointer(&v)) },
+			Call: func(m string, a int) int {
+				if m == "Gamma" {
+					return v.Gamma(a)
+				}
+				return v.Beta(a)
+			}}
+	}
+}
 
 // CallI calls method m of the value held by an I variable (b is unexported, so the call lives here).
 func CallI(i I, m string, a int) int {
